@@ -27,7 +27,8 @@ ASSUMPTIONS = ["layout of the text and key order of metadata are not judged", "N
                "result names are identifiers"]
 
 STR_POOL = ["plain", "two words", "", " lead", "trail ", "  ", 'say "hi"', "it's", "back\\slash", "C:\\path\\to\\file.csv", "a,b", "k: v", "[x]", "(y)", "a = b", "# not a comment",
-            "é ü Ω 日本 —", "tab\there", "line\nbreak", 'mix "\' \\ #:,=()[]', "\\", '"', "'", "\\\\n", "ends with backslash\\", "100%", "True", "1.5", "12", "Float", "1e-05"]
+            "é ü Ω 日本 —", "tab\there", "line\nbreak", "ls\u2028sep ps\u2029", "zero\u200bwidth", "bom\ufeffinside", "ideographic\u3000space", "ff\x0cvt\x0bnel\x85", "nul-free ctrl \x01\x1f\x7f", "emoji 😀",
+            "cr\rlf", 'mix "\' \\ #:,=()[]', "\\", '"', "'", "\\\\n", "ends with backslash\\", "100%", "True", "1.5", "12", "Float", "1e-05"]
 NUM_POOL = [0, 1, -1, 12, 2 ** 70, -2 ** 63, 0.0, -0.0, 1.5, 1e-05, 1e+22, 5e-324, 1.7976931348623157e+308, 0.1, 123456789.125, 2.5e-7, 1e16, 1e15]
 
 
